@@ -111,6 +111,12 @@ CHECKS = {
              "by name, and the solved circuit with the exact solution of the depicted netlist; each program also under rotation, translation, rescaling, "
              "wire splitting and reordering. One rounding-boundary defect is recorded as a known finding.",
         design='5/C13', technique='runtime oracle: independent turtle/union-find model of the drawing program + metamorphic transforms'),
+    'C14': dict(
+        text="Runtime oracle on SchematicDiagramSolution.draw_voltage/current/power/potential through all four adapters and on the label symbols that "
+             "create_schematic appends: the label text is parsed back by the independent decimal parser (real, Cartesian, polar rad/deg, A cos/sin(wt+phi), "
+             "power arrows) and compared with the exact solution of the netlist the drawing depicts, in the translated component's direction, "
+             "negated iff reverse, to half a unit of the displayed precision.",
+        design='5/C14', technique='runtime oracle: parsed label text vs exact solution of the depicted netlist'),
 }
 
 NOT_YET = "check not built yet in this round (work in progress; see DESIGN.md section 5)"
